@@ -186,6 +186,43 @@ def Tree.leaves : Tree → List Leaf
   | .leaf l => [l]
   | .branch l r => l.leaves ++ r.leaves
 
+/-! #### the `_leaves` memo of TapBranch as explicit state
+
+  `TapBranch.leaves()` stores the list it computes in `self._leaves` and returns the stored list on every later
+  call.  (It is the only cache of taproot.py: neither the tweaked output key nor the control blocks are kept on
+  the tree, and MuSigTapScript keeps nothing that depends on a message, a nonce or a merkle root.)  `MTree` is a
+  tree whose branch nodes carry the memo; `leavesM` is the method with its side effect. -/
+
+/-- a tree object with the memo field of every TapBranch node -/
+inductive MTree where
+  | leaf (l : Leaf)
+  | branch (l r : MTree) (memo : Option (List Leaf))
+deriving Repr
+
+/-- forget the memos -/
+def MTree.erase : MTree → Tree
+  | .leaf l => .leaf l
+  | .branch l r _ => .branch l.erase r.erase
+
+/-- a freshly constructed tree object (`self._leaves = None` everywhere) -/
+def MTree.fresh : Tree → MTree
+  | .leaf l => .leaf l
+  | .branch l r => .branch (MTree.fresh l) (MTree.fresh r) none
+
+/-- TapLeaf.leaves / TapBranch.leaves with the memo: the answer and the object afterwards -/
+def MTree.leavesM : MTree → List Leaf × MTree
+  | .leaf l => ([l], .leaf l)
+  | .branch l r (some m) => (m, .branch l r (some m))
+  | .branch l r none =>
+    let a := l.leavesM
+    let b := r.leavesM
+    (a.1 ++ b.1, .branch a.2 b.2 (some (a.1 ++ b.1)))
+
+/-- the invariant: every stored list is the leaf list of its node -/
+def MTree.MemoOK : MTree → Prop
+  | .leaf _ => True
+  | .branch l r memo => l.MemoOK ∧ r.MemoOK ∧ ∀ m, memo = some m → m = (MTree.branch l r memo).erase.leaves
+
 /-- TapLeaf.path_hashes (always `[]`) / TapBranch.path_hashes; `none` = returns None or raises -/
 def Tree.pathHashes (H : Hashes) : Tree → Leaf → Option (List Bytes)
   | .leaf _, _ => some []
@@ -291,9 +328,10 @@ def cbAccepts (H : Hashes) (b : Bytes) (s : Script) (qx : Bytes) : Bool :=
 
 /-! ### witness.py -/
 
-/-- Witness.has_annex as a truth value: `len(items) and items[-1][0] == 0x50`
-    (`none` = IndexError on an empty last item) -/
+/-- Witness.has_annex: `len(items) >= 2 and items[-1][0] == 0x50` (BIP341: the annex is the last of at least
+    two witness elements; `none` = IndexError on an empty last item) -/
 def hasAnnex (items : List Bytes) : Option Bool :=
+  if items.length < 2 then some false else
   match items.getLast? with
   | none => some false
   | some last =>
@@ -311,13 +349,15 @@ def witnessControlBlock (items : List Bytes) : Option ControlBlock := do
   let raw ← fromEnd items (if a then 2 else 1)
   ControlBlock.parse raw
 
-/-- Witness.tap_script: `Script.parse(BytesIO(encode_varstr(raw)))` -/
+/-- Witness.tap_script: `Script.parse(BytesIO(encode_varstr(raw)))`, then `tap_script.raw = raw`: the leaf
+    hash commits to the script bytes exactly as they are in the witness (an empty `raw` is falsy in
+    `raw_serialize`, which then serialises the — empty — command list) -/
 def witnessTapScript (items : List Bytes) : Option Script := do
   let a ← hasAnnex items
   let raw ← fromEnd items (if a then 3 else 2)
   let s ← encodeVarstr raw
   let (sc, _) ← Script.parse s
-  pure sc
+  pure { sc with raw := some raw }
 
 /-- Witness.tap_leaf -/
 def witnessTapLeaf (items : List Bytes) : Option Leaf := do
